@@ -66,11 +66,31 @@ def units(rng, tier):
             wf[rng.randrange(n)] = sc
             wf = [min(x, sc) for x in wf]
         us.append(U("weighted_value", {"weights": wf, "wscale": sc, "sums": s, "sorted": 0, "kind": rng.choice(["list", "tuple", "array"])}, "weighted/fractional"))
+    # one objective OBJECT evaluated on a sequence of vectors of different lengths (k larger and smaller than the number of sums,
+    # sorted and unsorted): the value must be the documented function of the vector alone, whatever was evaluated before
+    for _ in range(300 if tier == "quick" else 3000):
+        o = rng.choice([0, 1, 2, 3, 3, 4, 4, 4])
+        ok = rng.randint(1, 6)
+        seq = []
+        for _j in range(rng.randint(2, 6)):
+            n = rng.randint(1, 6)
+            sv = [rng.randint(0, 30) for _ in range(n)]
+            srt = rng.random() < 0.4
+            seq.append([sorted(sv) if srt else sv, 1 if srt else 0, rng.choice(["list", "tuple", "array"])])
+        us.append(U("objective_history", {"o": o, "ok": ok, "seq": seq, "sums": seq[0][0]}, "one-object-many-vectors", cmp=None))
     return us
 
 
 def judge_requests(u, impl, model):
     p = u["params"]
+    if u["kind"] == "objective_history":
+        if "exc" in impl:
+            return [("py", None, f"objective history raised {impl['exc']}")]
+        js = []
+        for j, ((sums, srt, kind), got) in enumerate(zip(p["seq"], impl["values"])):
+            js.append(("value", [p["o"], p["ok"], sums, srt],
+                       lambda r, j=j, sums=sums, got=got: None if r == got else f"objective {UN.OBJ_NAMES[p['o']]}(k={p['ok']}): evaluation #{j} of ONE objective object, on sums {sums}, returned {got}; the documented value is {r} (vectors evaluated before it: {[q[0] for q in p['seq'][:j]]})"))
+        return js
     if "exc" in impl:
         if u["kind"] == "weighted_value" and p["sorted"] and impl["exc"] == "ValueError":
             return []
